@@ -28,6 +28,15 @@ def run(ctx):
         ("schema.dict({'a': schema.int, optional('b'): schema.str, ...: ...})", {"a": 1}),
         ("schema.list([schema.int, ...])", [1, 2, 3]),
         ("schema.list([..., schema.int])", [1, 2, 3]),
+        # contains-windows that fail part-way before the one that fits (a prefix of the window matches earlier)
+        ("schema.list([..., schema.int(1), schema.int(2), ...])", [1, 1, 2]),
+        ("schema.list([..., schema.int(1), schema.int(2), ...])", [1, 3, 1, 2]),
+        ("schema.list([..., schema.int(1), schema.int(2), ...])", [0, 1, 1, 2, 1]),
+        ("schema.list([..., schema.str('a'), schema.str('a'), schema.str('b'), ...])", ["a", "a", "a", "b"]),
+        ("schema.list([..., schema.int.min(1), schema.str, ...])", [1, 2, "x", 3]),
+        ("schema.dict({'k': schema.list([..., schema.int(1), schema.int(2), ...])})", {"k": [1, 1, 2]}),
+        ("schema.list([..., schema.int(1), schema.int(2)])", [1, 2, 1, 2]),
+        ("schema.list([schema.int(1), schema.int(2), ...])", [1, 2, 1, 2]),
     ]
     for ssrc, v in directed:
         c = ssuite.SCase()
